@@ -186,7 +186,7 @@ func (in *Interp) jsonKind(t types.Type, asStr bool) string {
 		return "time"
 	}
 	if in.hasTextMarshal(t) {
-		return "text:" + typeStr(t)
+		return "text"
 	}
 	switch u := t.Underlying().(type) {
 	case *types.Basic:
@@ -399,7 +399,7 @@ func (in *Interp) jsonAssign2(dst *Value, dt types.Type, dStr bool, src Value, s
 		}
 		return ""
 	}
-	if strings.HasPrefix(dk, "text:") {
+	if dk == "text" {
 		*dst = src
 		return ""
 	}
